@@ -214,11 +214,128 @@ fn run(args: &[String]) -> anyhow::Result<()> {
     Ok(())
 }
 
+// ---------------------------------------------------------------------------------------------
+// spec/WitnessGen.tla replay: abstract generator graphs on the real generate_partial_witness
+// ---------------------------------------------------------------------------------------------
+#[derive(Debug)]
+struct WGen {
+    deps: Vec<plonky2::iop::target::Target>,
+    out: plonky2::iop::target::Target,
+    k: u64,
+}
+impl plonky2::iop::generator::SimpleGenerator<F, D> for WGen {
+    fn id(&self) -> String {
+        "WGen".to_string()
+    }
+    fn dependencies(&self) -> Vec<plonky2::iop::target::Target> {
+        self.deps.clone()
+    }
+    fn run_once(
+        &self,
+        witness: &plonky2::iop::witness::PartitionWitness<F>,
+        out_buffer: &mut plonky2::iop::generator::GeneratedValues<F>,
+    ) -> anyhow::Result<()> {
+        use plonky2::field::types::Field;
+        use plonky2::iop::witness::{Witness, WitnessWrite};
+        let mut v = F::from_canonical_u64(self.k);
+        for d in &self.deps {
+            v += witness.get_target(*d);
+        }
+        out_buffer.set_target(self.out, v)
+    }
+    fn serialize(&self, _dst: &mut Vec<u8>, _c: &plonky2::plonk::circuit_data::CommonCircuitData<F, D>) -> plonky2::util::serialization::IoResult<()> {
+        Ok(())
+    }
+    fn deserialize(_src: &mut plonky2::util::serialization::Buffer, _c: &plonky2::plonk::circuit_data::CommonCircuitData<F, D>) -> plonky2::util::serialization::IoResult<Self> {
+        Err(plonky2::util::serialization::IoError)
+    }
+}
+
+/// value of generator-owned id: k-th generator outputs k + sum of its dependencies
+fn wgen(args: &[String]) -> anyhow::Result<()> {
+    use plonky2::field::types::Field;
+    use plonky2::iop::generator::generate_partial_witness;
+    use plonky2::iop::witness::{PartialWitness, Witness, WitnessWrite};
+    let inp = opt(args, "--in").ok_or_else(|| anyhow::anyhow!("--in"))?;
+    let mut n = 0u64;
+    let mut mism: Vec<Value> = vec![];
+    let mut outcomes: std::collections::BTreeMap<String, u64> = Default::default();
+    for s in read_lines(inp)? {
+        n += 1;
+        let nin = s["nin"].as_u64().unwrap() as usize;
+        let gens: Vec<Vec<usize>> = serde_json::from_value(s["gens"].clone())?;
+        let provided: Vec<usize> = serde_json::from_value(s["provided"].clone())?;
+        let pre_v = s["preset"]["value"].as_u64().unwrap() as usize;
+        let pre_ok = s["preset"]["agrees"].as_bool().unwrap();
+        let expected = s["expected"].as_str().unwrap().to_string();
+        let res = guarded(|| {
+            let mut b = CircuitBuilder::<F, D>::new(CfgSpec::standard().config());
+            let mut t: Vec<plonky2::iop::target::Target> = (0..nin).map(|_| b.add_virtual_target()).collect();
+            for (k, deps) in gens.iter().enumerate() {
+                let out = b.add_virtual_target();
+                let g = WGen { deps: deps.iter().map(|d| t[d - 1]).collect(), out, k: (k + 1) as u64 };
+                b.add_simple_generator(g);
+                t.push(out);
+            }
+            let data = b.build::<PoseidonGoldilocksConfig>();
+            // reference values (every input i has value 10 * i)
+            let mut vals: Vec<u64> = (1..=nin as u64).map(|i| 10 * i).collect();
+            for (k, deps) in gens.iter().enumerate() {
+                let v = (k as u64 + 1) + deps.iter().map(|d| vals[d - 1]).sum::<u64>();
+                vals.push(v);
+            }
+            let mut pw = PartialWitness::new();
+            for i in &provided {
+                pw.set_target(t[i - 1], F::from_canonical_u64(vals[i - 1])).unwrap();
+            }
+            if pre_v != 0 {
+                let v = vals[pre_v - 1] + if pre_ok { 0 } else { 1 };
+                pw.set_target(t[pre_v - 1], F::from_canonical_u64(v)).unwrap();
+            }
+            match generate_partial_witness(pw, &data.prover_only, &data.common) {
+                Ok(w) => {
+                    for (i, tv) in t.iter().enumerate() {
+                        // inputs that were not provided stay unset
+                        if i < nin && !provided.contains(&(i + 1)) {
+                            continue;
+                        }
+                        if w.try_get_target(*tv) != Some(F::from_canonical_u64(vals[i])) {
+                            return "ok_wrong_values".to_string();
+                        }
+                    }
+                    "ok".to_string()
+                }
+                Err(e) => {
+                    let m = format!("{e:#}");
+                    if m.contains("weren't run") {
+                        "not_run".to_string()
+                    } else if m.contains("set twice") || m.contains("different values") {
+                        "conflict".to_string()
+                    } else {
+                        format!("err:{m}")
+                    }
+                }
+            }
+        });
+        let got = match res {
+            Ok(g) => g,
+            Err(p) => format!("panic:{p}"),
+        };
+        *outcomes.entry(got.clone()).or_default() += 1;
+        if got != expected && mism.len() < 10 {
+            mism.push(json!({"scenario": s, "observed": got}));
+        }
+    }
+    emit(&json!({"kind": "wgen", "scenarios": n, "outcomes": outcomes, "mismatches": mism}));
+    Ok(())
+}
+
 fn main() -> std::process::ExitCode {
     run_main(|cmd, rest| match cmd {
         "interp17" => interp17(rest),
         "run" => run(rest),
         "friadm" => friadm(rest),
+        "wgen" => wgen(rest),
         other => Err(anyhow::anyhow!("unknown command {other}")),
     })
 }
